@@ -243,7 +243,7 @@ def evaluate(exe, results, space):
                 f["c05"].append(("contract: %s lists %s" % (NAMES.get(pc, "cls%d" % pc), NAMES.get(cc, "cls%d" % cc)), ["contract", pc, cc],
                                  "after clean_all a %s node lists a %s child" % (NAMES.get(pc, pc), NAMES.get(cc, cc))))
             if space == 2 and va[0] and vb is not None and vb[0]:
-                c7 = S.c07_compare(vb[2], vb[3], va[2])
+                c7 = S.c07_compare(vb[2], vb[3], va[2], S.py_columns(*S.parse_line(ca["before"])), S.py_columns(*S.parse_line(ca["after"])))
                 if c7:
                     def where(x):
                         return "in a reference" if x[3] else ("in a table" if x[4] else ("in a list" if x[2] else "in running text"))
@@ -363,13 +363,20 @@ def coverage(run, space, docs, results, findings):
             continue
         for lab in findings[did]["changed"][1:]:
             acc["act"][lab] += 1
+        for _k, name, ek, _dt in r.get("passes", []):
+            if ek is not None:
+                acc.setdefault("raised", collections.Counter())["%s: %s" % (name, ek.split(":")[0])] += 1
+        if "snaps_ca" in r:
+            acc["catchall_runs"] = acc.get("catchall_runs", 0) + 1
         nn = r["snaps"][0][1].count(";") if r.get("snaps") else 0
         acc["sizes"]["<=20 nodes" if nn <= 20 else "<=100 nodes" if nn <= 100 else "<=500 nodes" if nn <= 500 else ">500 nodes"] += 1
         run.count(hashlib.blake2b(docs[did].encode("utf8", "replace"), digest_size=8).hexdigest(), nontrivial=len(r.get("snaps", [])) > 1)
     d = run.coverage.setdefault("input_distribution", {})
     d["space%d" % space] = {"documents": acc["documents"], "status": dict(acc["status"]), "tree_sizes_after_build": dict(acc["sizes"]),
                             "documents_in_which_a_pass_changed_the_tree": dict(acc["act"]),
-                            "passes_never_changing_a_tree": sorted(set(PASS_NAMES) - set(acc["act"]))}
+                            "passes_never_changing_a_tree": sorted(set(PASS_NAMES) - set(acc["act"])),
+                            "pass_calls_that_raised_or_timed_out": dict(acc.get("raised", {})),
+                            "documents_rerun_pass_by_pass_through_the_catch_all": acc.get("catchall_runs", 0)}
 
 
 PASS_NAMES = []
